@@ -9,6 +9,7 @@ op           = `<index>:<ifm t>:<ifm2 t|->:<ofm t>:<reqFullIfm>:<reqFullOfm>:<bi
 cost         = `<stripe n.h.w.c>~<stripe_input n.h.w.c>~<wb>.<wb>…~<cascade>`;  cost map = `<index>@<cost>,…`
 
 `sinfo <ofm n.h.w.c> <stripe n.h.w.c> <ifm n.h.w.c> <ifm2 n.h.w.c|-> <sy> <sx> <areaH> <areaW> <upscale> <nearest>` → `<stripe_input n.h.w.c> <stripe_input2 n.h.w.c|->`
+`maxfits <max peak> <sram limit> <spilling>` → `0|1`
 `bcasc spill=<0|1> limit=<int> NL=<index>:<int>,… OPS=<op>;… REF=<cost map> FB=<cost map> [BM=<p>/<c>@<n.h.w.c>@<size>,…]`
    → `ok peak=<int> cost=<index>@<stripe h>.<stripe_input h>.<cascade>.<sum wb>,… casc=<start>:<end>:<mem>:<j>=<n.h.w.c>/…;…`
 `optsub spill= limit= snap=<int> cimem=<int> cistart=<n> ciend=<n> multi=<0|1> OPS= FB= P=<cost map>|<cost map>|…`
@@ -207,6 +208,8 @@ def handle : List String → Option String
       let r := stripeInputs (← parseShape ofm) (← parseShape stripe) (← parseShape ifm) i2 (← parseInt? sy) (← parseInt? sx)
         (← parseInt? ah) (← parseInt? aw) (← parseInt? up) (← parseBool nr)
       some s!"{shapeStr r.1} {match r.2 with | some s2 => shapeStr s2 | none => "-"}").getD "err:parse")
+  | ["maxfits", p, l, sp] =>
+    some ((do some (boolStr (maxScheduleFits (← parseInt? p) (← parseInt? l) (← parseBool sp)))).getD "err:parse")
   | ["ffast", c, n, o, v] =>
     some ((do some (boolStr (forcedToFast (← parseNat? c) (← parseNat? n) (← parseBool o) (← parseBool v)))).getD "err:parse")
   | "opbuf" :: toks =>
